@@ -30,7 +30,7 @@ func c07Chunked(t *rapid.T) {
 }
 
 // delayDelGate holds the first chunk's DEL until another connection has executed an HSET (or 3 s passed):
-// the interleaving of known finding D14, forced deterministically.
+// the interleaving of D14 (repaired by 58b799a), forced deterministically.
 func delayDelGate(srv *mredis.Server) func(c *mredis.ConnState, argv [][]byte) {
 	return func(c *mredis.ConnState, argv [][]byte) {
 		if !strings.EqualFold(string(argv[0]), "del") {
@@ -144,7 +144,7 @@ func handBigHash(n int) *bigHash {
 	return bh
 }
 
-// Known finding D14: the chunks of one hash go to different workers; under key_exists=rewrite the first
+// D14 (repaired by 58b799a; kept as a regression): the chunks of one hash go to different workers; under key_exists=rewrite the first
 // chunk's DEL can be executed after another worker has already written fields of a later chunk.
 func TestC07ChunkedRegress(t *testing.T) {
 	reportKnown(t, "C07", "chunked:fields-lost-or-stale:rewrite", func(ft fataler) {
